@@ -6,7 +6,7 @@
    F whole field blocks (one 2-D or 3-D array per (time, tower)), A coordinate values: all arbitrary.
    This file contains only statements, `exact`, Examples and Print Assumptions. *)
 From Coq Require Import List Arith Bool.
-From BL Require Import Model.NetcdfAsm Proofs.NetcdfProofs.
+From BL Require Import Model.NetcdfAsm Proofs.NetcdfProofs Model.IoDesc Proofs.IoBridgeLemmas.
 Import ListNotations.
 
 (* what is loaded is what was assembled (the only place the library hypothesis is used) *)
@@ -140,6 +140,67 @@ Theorem C18_select :
      sel_block eqbN eqbL (load read f) nm (str (r_stamp rt)) = Some (r_flx r, r_conc r)).
 Proof. exact (@C18_select_l). Qed.
 
+(* ---- tie (B), the part that does not depend on the source: what a DESCRIPTION of save_footprints_to_netcdf means
+   (Model/IoDesc.v; harness/py2coq_io.py extracts the description from the current io.py on every run and
+   Bridge/IoBridge.v instantiates these statements with it) ---- *)
+
+(* np.zeros((n1, len(cols))) filled by `for ti, steps in enumerate(cols): for t, r in enumerate(steps): a[t, ti] = val r`
+   (fold_left in source order, IndexError = None) is the closed form the assembly model uses -- any number of
+   columns, any (ragged) lengths *)
+Theorem C18_fill_loop :
+  forall (R X : Type) (val : R -> X) (zero : X) (cs : list (list R)) (n1 : nat),
+  option_map to_list2 (loop_fill cs (fun t ti => (t, ti)) (fun _ _ => true) val (fzeros zero n1 (length cs))) =
+  if forallb (fun s => length s <=? n1) cs
+  then Some (map (fun t => map (fun s => match nth_error s t with Some r => val r | None => zero end) cs) (seq 0 n1))
+  else None.
+Proof. exact (@fill_blocks_plain). Qed.
+
+(* ... and with the assignment `a[t] = val r` guarded by `if ti == 0:` the vector is the first column's values *)
+Theorem C18_fill_first :
+  forall (R X : Type) (val : R -> X) (zero : X) (s0 : list R) (rest : list (list R)),
+  option_map to_list1 (loop_fill (s0 :: rest) (fun t ti => (t, 0)) (fun t ti => ti =? 0) val (fzeros zero (length s0) 1)) =
+  Some (map val s0).
+Proof. exact (@fill_first_plain). Qed.
+
+(* numpy basic indexing with 0 and `:` on nested lists is the model's coordinate extraction, for every mesh *)
+Theorem C18_indexing :
+  forall (A : Type) (m : @mesh A),
+  index_mesh m [I0; I0; IAll] = x_of true m /\ index_mesh m [I0; IAll; I0] = y_of true m /\
+  index_mesh m [IAll; I0; I0] = z_of m /\
+  (forall l, m = M2 l -> index_mesh m [I0; IAll] = x_of false m /\ index_mesh m [IAll; I0] = y_of false m).
+Proof. exact (@index_mesh_coords). Qed.
+
+(* every description whose tower names are the results keys, whose 2-D/3-D test is flx.ndim == 3 and whose two
+   branches have the canonical members (looked up by name; any order; any field as the source of the block shape)
+   denotes exactly `assemble` and asks the writer for nothing lossy -- for all results / tower lists and for every
+   interpretation E of sort / cast / range labels / raw labels (none of them is used) *)
+Theorem C18_description_meaning :
+  forall (N L T V F A : Type) (eqbN : N -> N -> bool) (str : T -> L) (nanV : V) (zeroF : F) (E : @extras N L T V F),
+  (forall a : N, eqbN a a = true) ->
+  forall (sd : save_d) (k1 k2 k3 k4 : fkey),
+  sv_names sd = NKeys -> sv_is3d sd = (KFlx, 3) ->
+  normalize (sv_3d sd) = Some (canon_norm true MByName k1 k2) ->
+  normalize (sv_2d sd) = Some (canon_norm false MByName k3 k4) ->
+  forall (rs : @results N T V F A) (tws : list (@tower N V)),
+  run_save eqbN str nanV zeroF E sd rs tws =
+  option_map (fun d => (d, @nil (String.string * String.string))) (assemble eqbN str nanV zeroF rs tws).
+Proof. exact (@run_save_canonical). Qed.
+
+(* the same description with the tower metadata attached BY POSITION (the original code; xr.Dataset raises on
+   conflicting sizes of the tower dimension) denotes the model of the original code, refuted in C18_labels_orig_refuted:
+   the description language tells the two apart for all inputs, not only on samples *)
+Theorem C18_description_original :
+  forall (N L T V F A : Type) (eqbN : N -> N -> bool) (str : T -> L) (nanV : V) (zeroF : F) (E : @extras N L T V F),
+  (forall a : N, eqbN a a = true) ->
+  forall (sd : save_d) (k1 k2 k3 k4 : fkey),
+  sv_names sd = NKeys -> sv_is3d sd = (KFlx, 3) ->
+  normalize (sv_3d sd) = Some (canon_norm true MByPosition k1 k2) ->
+  normalize (sv_2d sd) = Some (canon_norm false MByPosition k3 k4) ->
+  forall (rs : @results N T V F A) (tws : list (@tower N V)),
+  run_save eqbN str nanV zeroF E sd rs tws =
+  option_map (fun d => (d, @nil (String.string * String.string))) (assemble_orig eqbN str nanV zeroF rs tws).
+Proof. exact (@run_save_positional). Qed.
+
 (* non-vacuity: 2 towers x 2 steps, 3-D, results keys in REVERSED configuration order, z0 forcing
    (ustar absent), identity library: every hypothesis above holds and the statements compute *)
 Definition ex_res (k : nat) (ts : nat) : @result nat nat nat nat :=
@@ -174,6 +235,30 @@ Qed.
 Example C18_eqb_nonvacuous : forall a b : nat, Nat.eqb a b = true <-> a = b.
 Proof. exact Nat.eqb_eq. Qed.
 
+(* the description language is not vacuous and not blind: the description of the code (IoDesc.ex_save MByName, the
+   translator's output for the tree the model was written for) satisfies the hypotheses of C18_description_meaning and
+   its interpreter RUNS (array writes, loops, indexing) to the dataset of C18_nonvacuous; the description of the
+   ORIGINAL positional labelling (MByPosition) denotes something else on the reversed results *)
+Definition ex_E : @extras nat nat nat nat nat :=
+  @mkX nat nat nat nat nat (fun l => l) (fun n => n) (fun t => t) (fun _ x => x) (fun _ x => x) 0.
+
+Example C18_description_nonvacuous :
+  sv_names (ex_save MByName) = NKeys /\ sv_is3d (ex_save MByName) = (KFlx, 3) /\
+  normalize (sv_3d (ex_save MByName)) = Some (canon_norm true MByName KFlx KFlx) /\
+  normalize (sv_2d (ex_save MByName)) = Some (canon_norm false MByName KFlx KFlx) /\
+  normalize (sv_3d (ex_save MByPosition)) = Some (canon_norm true MByPosition KFlx KFlx) /\
+  normalize (sv_2d (ex_save MByPosition)) = Some (canon_norm false MByPosition KFlx KFlx) /\
+  run_save Nat.eqb (fun t : nat => t) 999 0 ex_E (ex_save MByName) ex_rs ex_tws =
+    option_map (fun d => (d, nil)) (assemble Nat.eqb (fun t : nat => t) 999 0 ex_rs ex_tws) /\
+  run_save Nat.eqb (fun t : nat => t) 999 0 ex_E (ex_save MByName) ex_rs ex_tws <> None /\
+  run_save Nat.eqb (fun t : nat => t) 999 0 ex_E (ex_save MByPosition) ex_rs ex_tws <>
+    option_map (fun d => (d, nil)) (assemble Nat.eqb (fun t : nat => t) 999 0 ex_rs ex_tws).
+Proof.
+  split; [reflexivity|]. split; [reflexivity|]. split; [vm_compute; reflexivity|]. split; [vm_compute; reflexivity|].
+  split; [vm_compute; reflexivity|]. split; [vm_compute; reflexivity|].
+  split; [vm_compute; reflexivity|]. split; vm_compute; discriminate.
+Qed.
+
 Goal True. idtac "THEOREM C18_roundtrip". Abort. Print Assumptions C18_roundtrip.
 Goal True. idtac "THEOREM C18_assembly". Abort. Print Assumptions C18_assembly.
 Goal True. idtac "THEOREM C18_coords". Abort. Print Assumptions C18_coords.
@@ -181,3 +266,8 @@ Goal True. idtac "THEOREM C18_labels". Abort. Print Assumptions C18_labels.
 Goal True. idtac "THEOREM C18_save_succeeds". Abort. Print Assumptions C18_save_succeeds.
 Goal True. idtac "THEOREM C18_labels_orig_refuted". Abort. Print Assumptions C18_labels_orig_refuted.
 Goal True. idtac "THEOREM C18_select". Abort. Print Assumptions C18_select.
+Goal True. idtac "THEOREM C18_fill_loop". Abort. Print Assumptions C18_fill_loop.
+Goal True. idtac "THEOREM C18_fill_first". Abort. Print Assumptions C18_fill_first.
+Goal True. idtac "THEOREM C18_indexing". Abort. Print Assumptions C18_indexing.
+Goal True. idtac "THEOREM C18_description_meaning". Abort. Print Assumptions C18_description_meaning.
+Goal True. idtac "THEOREM C18_description_original". Abort. Print Assumptions C18_description_original.
